@@ -1,6 +1,7 @@
 import Account.Lifecycle
 import Account.OrderLemmas
 import Account.LifecycleLemmas
+import Account.TreeLemmas
 /-!
 # C11 — Exact dispatch; lifecycle phases run in order and short-circuit on error
 
@@ -110,16 +111,29 @@ example :
 
 /-! ## Lifecycle -/
 
+/-- The expected steps with every struct's fields validated in DECLARATION order; by
+`validate_each_block_once` a permutation of `expected`. Only used to state "ids are distinct". -/
+def expectedDecl (ix : Ix) (data : List Nat) : Trace :=
+  [⟨.args, ix.id, [], none, none⟩]
+  ++ events ix.set.decodeSteps
+  ++ events ix.set.validateStepsDecl
+  ++ [processEvent ix data]
+  ++ events ix.set.cleanupSteps
+
 /-- **Phases run in order, each step at most once, and nothing runs after the first failure** —
-for every instruction, every fault plan, every argument data and every number of accounts:
-* the trace is a prefix of `[args, decode f₁…fₙ, validate (order fs), process, cleanup f₁…fₙ]`;
-* with distinct field names no step occurs twice in it;
+for every instruction (any nesting of account sets, hooks, skipped fields), every fault plan,
+every argument data and every number of accounts:
+* the trace is a prefix of `expected` = `[args] ++ decode (declaration order, depth first) ++
+  validate (per struct: before_validation, the fields' blocks in `order`, extra_validation) ++
+  [process] ++ cleanup (declaration order, each struct followed by its extra_cleanup)`;
+* if the steps are pairwise distinct (distinct probe / struct ids; field names distinct per
+  struct) no step occurs twice in it;
 * a successful run performed every step and no step was due to fail;
 * a failed run stopped exactly at the first step that was due to fail (all earlier steps were not)
   and returned that step's error, converted by `toProgramError`. -/
 theorem phases_ordered (ix : Ix) (plan : FaultPlan) (data : List Nat) (naccts : Nat) :
     (run ix plan data naccts).1 <+: expected ix data ∧
-    ((names ix.fields).Nodup → (run ix plan data naccts).1.Nodup) ∧
+    (ix.set.namesOK = true → (expectedDecl ix data).Nodup → (run ix plan data naccts).1.Nodup) ∧
     ((run ix plan data naccts).2 = .ok →
       (run ix plan data naccts).1 = expected ix data ∧
       ∀ o ∈ failures ix plan data naccts, o = none) ∧
@@ -131,8 +145,12 @@ theorem phases_ordered (ix : Ix) (plan : FaultPlan) (data : List Nat) (naccts : 
   have h := walk_spec (steps ix plan data naccts)
   rw [← run_eq_walk, steps_events, steps_failures] at h
   refine ⟨h.1, ?_, h.2.1, h.2.2⟩
-  intro hnd
-  exact (h.1.sublist).nodup (expected_nodup ix data hnd)
+  intro hok hnd
+  have hperm : (expected ix data).Perm (expectedDecl ix data) := by
+    unfold expected expectedDecl events
+    have := (validateSteps_perm_decl ix.set hok).filterMap (·.ev)
+    exact ((this.append_left _).append_right _).append_right _
+  exact (h.1.sublist).nodup (hperm.nodup_iff.mpr hnd)
 
 /-- **The error handed back is the one raised.** If step number `i` of the expected sequence is
 the first one due to fail, with error `er`, then the run's trace is exactly the first `i + 1`
@@ -164,127 +182,183 @@ theorem run_ok (ix : Ix) (plan : FaultPlan) (data : List Nat) (naccts : Nat)
     rw [← steps_failures]
     exact List.mem_map.mpr ⟨s, hs, rfl⟩
 
-/-- A failed `process` is never followed by cleanup, and a failed validation is never followed by
-`process`. -/
-theorem no_step_after_failure (ix : Ix) (plan : FaultPlan) (data : List Nat) (naccts : Nat) :
-    (planned plan .process ix.id ≠ none →
-      ∀ e ∈ (run ix plan data naccts).1, e.phase ≠ .cleanup) ∧
-    ((∃ f ∈ order ix.fields, planned plan .validate f ≠ none) →
-      ∀ e ∈ (run ix plan data naccts).1, e.phase ≠ .process ∧ e.phase ≠ .cleanup) := by
-  have hargs : ∀ e ∈ ([⟨.args, ix.id, []⟩] : Trace), e.phase = .args := by simp
+/-- A failed `process` is never followed by any cleanup: if the handler is due to fail, the trace
+contains no `cleanup` / `extra_cleanup` step. -/
+theorem no_cleanup_after_failed_process (ix : Ix) (plan : FaultPlan) (data : List Nat)
+    (naccts : Nat) (hp : planned plan .process ix.id ≠ none) :
+    ∀ e ∈ (run ix plan data naccts).1, e.phase ≠ .cleanup ∧ e.phase ≠ .cextra := by
+  cases hpp : planned plan .process ix.id with
+  | none => exact absurd hpp hp
+  | some er =>
+    intro e he
+    rw [run_eq_walk] at he
+    have hsplit : steps ix plan data naccts =
+        ((⟨.args, ix.id, [], none, none⟩, argsFail ix plan data)
+          :: (pairsOf (decodeFail plan naccts) 0 ix.set.decodeSteps
+              ++ pairsOf (plainFail plan) 0 ix.set.validateSteps))
+        ++ (processEvent ix data, some er)
+          :: (pairsOf (plainFail plan) 0 ix.set.cleanupSteps ++ []) := by
+      simp [steps, hpp]
+    rw [hsplit] at he
+    have hmem := (walk_prefix_of_failing _ _ _ _).subset he
+    simp only [List.map_cons, List.map_append, pairsOf_events, List.mem_append, List.mem_cons,
+      List.mem_singleton, List.not_mem_nil, or_false] at hmem
+    rcases hmem with (rfl | hd | hv) | rfl
+    · simp
+    · simp [events_decode_phase _ e hd]
+    · have := events_validate_phase _ e hv
+      simp only [validatePhases, List.mem_cons, List.not_mem_nil, or_false] at this
+      rcases this with h | h | h <;> simp [h]
+    · simp [processEvent]
+
+/-- A failed validation step (a field's validation or a struct's before / extra hook) is never
+followed by the handler: if any validation step is due to fail, the trace contains no `process`,
+`cleanup` or `extra_cleanup` step. -/
+theorem no_process_after_failed_validation (ix : Ix) (plan : FaultPlan) (data : List Nat)
+    (naccts : Nat)
+    (hv : ∃ o ∈ failsOf (plainFail plan) 0 ix.set.validateSteps, o ≠ none) :
+    ∀ e ∈ (run ix plan data naccts).1,
+      e.phase ≠ .process ∧ e.phase ≠ .cleanup ∧ e.phase ≠ .cextra := by
+  obtain ⟨o, ho, hne⟩ := hv
+  rw [← pairsOf_failures] at ho
+  obtain ⟨pr, hpr, rfl⟩ := List.mem_map.mp ho
+  obtain ⟨ev, oe⟩ := pr
+  cases oe with
+  | none => exact absurd rfl hne
+  | some er =>
+    obtain ⟨V1, V2, hV⟩ := List.append_of_mem hpr
+    intro e he
+    rw [run_eq_walk] at he
+    have hsplit : steps ix plan data naccts =
+        ((⟨.args, ix.id, [], none, none⟩, argsFail ix plan data)
+          :: (pairsOf (decodeFail plan naccts) 0 ix.set.decodeSteps ++ V1))
+        ++ (ev, some er)
+          :: (V2 ++ ((processEvent ix data, planned plan .process ix.id)
+              :: (pairsOf (plainFail plan) 0 ix.set.cleanupSteps ++ []))) := by
+      simp [steps, hV]
+    rw [hsplit] at he
+    have hmem := (walk_prefix_of_failing _ _ _ _).subset he
+    have hVev : ∀ x ∈ V1.map (·.1) ++ [ev], x ∈ events ix.set.validateSteps := by
+      intro x hx
+      rw [← pairsOf_events (plainFail plan) ix.set.validateSteps 0, hV]
+      simp only [List.map_append, List.map_cons, List.mem_append, List.mem_cons,
+        List.mem_singleton, List.not_mem_nil, or_false] at hx ⊢
+      rcases hx with hx | hx
+      · exact Or.inl hx
+      · exact Or.inr (Or.inl hx)
+    simp only [List.map_cons, List.map_append, pairsOf_events, List.mem_append, List.mem_cons,
+      List.mem_singleton, List.not_mem_nil, or_false] at hmem
+    have hval : e ∈ events ix.set.validateSteps → _ := fun h => events_validate_phase _ e h
+    rcases hmem with (rfl | hd | h1) | rfl
+    · simp
+    · simp [events_decode_phase _ e hd]
+    · have := hval (hVev e (by simp [h1]))
+      simp only [validatePhases, List.mem_cons, List.not_mem_nil, or_false] at this
+      rcases this with h | h | h <;> simp [h]
+    · have := hval (hVev e (by simp))
+      simp only [validatePhases, List.mem_cons, List.not_mem_nil, or_false] at this
+      rcases this with h | h | h <;> simp [h]
+
+/-! ## Struct hooks, nesting, skipped fields, the funder / recipient cache -/
+
+/-- **Where the struct-level hooks sit.** The validation of a struct is: its `before_validation`
+hook (if any), then the code blocks of its fields in the order computed by the `pending` loop,
+then its `extra_validation` hook (if any). -/
+theorem validate_hooks_placed (sid : Nat) (b e x : Bool) (fs : List (FieldHdr × ASet)) :
+    (ASet.node sid b e x fs).validateSteps =
+      (if b then [evStep .vbefore sid] else [])
+      ++ arrange (order (sigs fs)) (validateBlocks fs)
+      ++ (if e then [evStep .vextra sid] else []) :=
+  validateSteps_node sid b e x fs
+
+/-- The code block of a field: its own complete validation (recursively, for a nested set;
+nothing for `#[validate(skip)]`) followed by the funder / recipient caching. -/
+def fieldBlock (h : FieldHdr) (s : ASet) : List Step :=
+  (if h.skip then [] else s.validateSteps) ++ cacheEffs h s
+
+/-- **`requires` is respected through nesting.** In a struct with distinct field names and acyclic
+`requires`, if field `f` requires field `r` then the WHOLE block of `r` (all steps of a nested
+set included) runs before the whole block of `f` — at any depth, since this holds for every
+`node` of the tree. -/
+theorem nested_respects_requires (sid : Nat) (b e x : Bool) (fs : List (FieldHdr × ASet))
+    (hnd : (names (sigs fs)).Nodup) (hac : Acyclic (sigs fs))
+    (hf : FieldHdr) (sf : ASet) (hr : FieldHdr) (sr : ASet)
+    (hmf : (hf, sf) ∈ fs) (hmr : (hr, sr) ∈ fs) (hreq : hr.name ∈ hf.requires) :
+    ∃ l₁ l₂ l₃, (ASet.node sid b e x fs).validateSteps =
+      l₁ ++ fieldBlock hr sr ++ l₂ ++ fieldBlock hf sf ++ l₃ := by
+  have hmem : (hf.name, hf.requires) ∈ sigs fs := List.mem_map.mpr ⟨(hf, sf), hmf, rfl⟩
+  have hrn : hr.name ∈ names (sigs fs) :=
+    mem_names_of_mem (f := (hr.name, hr.requires)) (List.mem_map.mpr ⟨(hr, sr), hmr, rfl⟩)
+  have hb : Before (order (sigs fs)) hr.name hf.name :=
+    orderLoop_respects _ (sigs fs) (Nat.le_refl _) hac _ hmem hr.name hreq hrn
+  obtain ⟨l₁, l₂, l₃, harr⟩ := arrange_before (validateBlocks fs) hb
+  rw [validateSteps_node]
+  change ∃ l₁ l₂ l₃, _ ++ arrange (order (sigs fs)) (validateBlocks fs) ++ _ = _
+  rw [harr, blockOf_field hnd hmr, blockOf_field hnd hmf]
+  exact ⟨(if b then [evStep .vbefore sid] else []) ++ l₁, l₂,
+    l₃ ++ (if e then [evStep .vextra sid] else []), by simp [fieldBlock]⟩
+
+/-- **Every field's block runs exactly once, at every level of nesting**: with distinct field
+names in every struct, the validation steps are a permutation of the steps listed in declaration
+order (skipped fields contribute no validation, only their caching). -/
+theorem validate_each_block_once (t : ASet) (h : t.namesOK = true) :
+    t.validateSteps.Perm t.validateStepsDecl :=
+  validateSteps_perm_decl t h
+
+/-- **The cache the handler sees** is filled by the first funder-marked / recipient-marked field
+in validation order (the generated code only sets an empty cache). -/
+theorem cache_is_first_marked (t : ASet) :
+    t.cache.funder = firstFunder (t.validateSteps.flatMap (·.effs)) ∧
+    t.cache.recipient = firstRecipient (t.validateSteps.flatMap (·.effs)) := by
   constructor
-  · intro hp e he
-    unfold run at he
-    cases ha : argsFail ix plan data with
-    | some er => simp [ha] at he; subst he; simp
-    | none =>
-      simp only [ha] at he
-      cases hd : fieldLoop .decode (decodeFail plan naccts) 0 (names ix.fields)
-          [⟨.args, ix.id, []⟩] with
-      | mk tr1 r1 =>
-        have h1 : ∀ e ∈ tr1, e.phase = .args ∨ e.phase = .decode := by
-          intro e he
-          have := fieldLoop_phase .decode (decodeFail plan naccts) (names ix.fields) 0 _ e
-            (by rw [hd]; exact he)
-          rcases this with h | h
-          · exact Or.inl (hargs e h)
-          · exact Or.inr h
-        rw [hd] at he
-        cases r1 with
-        | some er => simp only at he; rcases h1 e he with h | h <;> simp [h]
-        | none =>
-          simp only at he
-          cases hv : fieldLoop .validate (fun _ f => planned plan .validate f) 0
-              (order ix.fields) tr1 with
-          | mk tr2 r2 =>
-            have h2 : ∀ e ∈ tr2, e.phase = .args ∨ e.phase = .decode ∨ e.phase = .validate := by
-              intro e he
-              have := fieldLoop_phase .validate (fun _ f => planned plan .validate f)
-                (order ix.fields) 0 _ e (by rw [hv]; exact he)
-              rcases this with h | h
-              · rcases h1 e h with h | h
-                · exact Or.inl h
-                · exact Or.inr (Or.inl h)
-              · exact Or.inr (Or.inr h)
-            rw [hv] at he
-            cases r2 with
-            | some er => simp only at he; rcases h2 e he with h | h | h <;> simp [h]
-            | none =>
-              simp only at he
-              cases hpp : planned plan .process ix.id with
-              | none => exact absurd hpp hp
-              | some er =>
-                simp only [hpp] at he
-                rcases List.mem_append.mp he with he | he
-                · rcases h2 e he with h | h | h <;> simp [h]
-                · simp at he; subst he; simp
-  · rintro ⟨f, hf, hpf⟩ e he
-    -- the validation loop fails, so the run ends inside or before it
-    have key : ∀ (fs : List Nat) (k : Nat) (tr : Trace), f ∈ fs →
-        ∃ er, (fieldLoop .validate (fun _ f => planned plan .validate f) k fs tr).2 = some er := by
-      intro fs
-      induction fs with
-      | nil => intro _ _ h; simp at h
-      | cons g gs ih =>
-        intro k tr hmem
-        simp only [fieldLoop]
-        cases hg : planned plan .validate g with
-        | some er => exact ⟨er, rfl⟩
-        | none =>
-          simp only
-          rcases List.mem_cons.mp hmem with rfl | hm
-          · exact absurd hg hpf
-          · exact ih (k + 1) _ hm
-    unfold run at he
-    cases ha : argsFail ix plan data with
-    | some er => simp [ha] at he; subst he; simp
-    | none =>
-      simp only [ha] at he
-      cases hd : fieldLoop .decode (decodeFail plan naccts) 0 (names ix.fields)
-          [⟨.args, ix.id, []⟩] with
-      | mk tr1 r1 =>
-        have h1 : ∀ e ∈ tr1, e.phase = .args ∨ e.phase = .decode := by
-          intro e he
-          have := fieldLoop_phase .decode (decodeFail plan naccts) (names ix.fields) 0 _ e
-            (by rw [hd]; exact he)
-          rcases this with h | h
-          · exact Or.inl (hargs e h)
-          · exact Or.inr h
-        rw [hd] at he
-        cases r1 with
-        | some er => simp only at he; rcases h1 e he with h | h <;> simp [h]
-        | none =>
-          simp only at he
-          obtain ⟨er, hker⟩ := key (order ix.fields) 0 tr1 hf
-          cases hv : fieldLoop .validate (fun _ f => planned plan .validate f) 0
-              (order ix.fields) tr1 with
-          | mk tr2 r2 =>
-            have h2 : ∀ e ∈ tr2, e.phase = .args ∨ e.phase = .decode ∨ e.phase = .validate := by
-              intro e he
-              have := fieldLoop_phase .validate (fun _ f => planned plan .validate f)
-                (order ix.fields) 0 _ e (by rw [hv]; exact he)
-              rcases this with h | h
-              · rcases h1 e h with h | h
-                · exact Or.inl h
-                · exact Or.inr (Or.inl h)
-              · exact Or.inr (Or.inr h)
-            rw [hv] at hker he
-            simp only at hker
-            subst hker
-            simp only at he
-            rcases h2 e he with h | h | h <;> simp [h]
+  · simp [ASet.cache, applyEffs_funder]
+  · simp [ASet.cache, applyEffs_recipient]
+
+/-- **The flat case**: a struct of leaves without hooks decodes and cleans up in declaration
+order and validates exactly `order fs` — so the theorems of the next section speak about traces. -/
+theorem flat_lifecycle (sid : Nat) (fs : List Field) :
+    events (flat sid fs).decodeSteps = (names fs).map (fun f => ⟨.decode, f, [], none, none⟩) ∧
+    events (flat sid fs).validateSteps = (order fs).map (fun f => ⟨.validate, f, [], none, none⟩) ∧
+    events (flat sid fs).cleanupSteps = (names fs).map (fun f => ⟨.cleanup, f, [], none, none⟩) := by
+  refine ⟨?_, ?_, ?_⟩
+  · rw [ASet.decodeSteps, flat_decodeOrder, events_map_evStep]
+  · rw [flat_validateSteps, events_map_evStep]
+  · rw [flat_cleanupSteps, events_map_evStep]
 
 /-- non-vacuity: fields `a(requires c), b(requires a), c`; a fault in the validation of `a`
 (second in `order = [c, a, b]`) with a custom error of offset 7, variant 3. -/
 example :
-    let ix : Ix := ⟨5, 1, [(0, [2]), (1, [0]), (2, [])]⟩
+    let ix : Ix := ⟨5, 1, flat 0 [(0, [2]), (1, [0]), (2, [])]⟩
     run ix [⟨.validate, 0, .star 7 3⟩] [9] 3 =
-      ([⟨.args, 5, []⟩, ⟨.decode, 0, []⟩, ⟨.decode, 1, []⟩, ⟨.decode, 2, []⟩,
-        ⟨.validate, 2, []⟩, ⟨.validate, 0, []⟩], .err (.custom 458755)) ∧
+      ([⟨.args, 5, [], none, none⟩, ⟨.decode, 0, [], none, none⟩, ⟨.decode, 1, [], none, none⟩,
+        ⟨.decode, 2, [], none, none⟩, ⟨.validate, 2, [], none, none⟩,
+        ⟨.validate, 0, [], none, none⟩], .err (.custom 458755)) ∧
     run ix [] [9, 1] 4 = (expected ix [9, 1], .ok) ∧
     (run ix [] [9] 2).2 = .err (.custom 9004) ∧
     (run ix [⟨.process, 5, .prog (.builtin 2)⟩] [9] 3).2 = .err (.builtin 2) ∧
     (run ix [⟨.process, 5, .prog (.builtin 2)⟩] [9] 3).1.length = 8 := by decide
+
+/-- non-vacuity for hooks, nesting, skip and the cache: outer struct 1 (before + extra hooks) with
+fields `a` = leaf 0 (requires `b`, funder), `b` = inner struct 2 (extra hook, extra_cleanup;
+fields `x` = leaf 1 requiring `y`, `y` = leaf 2 marked funder), `c` = leaf 3 (skipped, recipient).
+Validation: before(1); block b = [validate 2 (+cache funder 2), validate 1, extra(2)];
+validate 0 (funder already set); c skipped but cached as recipient; extra(1). -/
+example :
+    let inner : ASet := .node 2 false true true
+      [(⟨0, [1], false, false, false⟩, .leaf 1), (⟨1, [], false, true, false⟩, .leaf 2)]
+    let outer : ASet := .node 1 true true false
+      [(⟨0, [1], false, true, false⟩, .leaf 0), (⟨1, [], false, false, false⟩, inner),
+       (⟨2, [], true, false, true⟩, .leaf 3)]
+    let ix : Ix := ⟨7, 0, outer⟩
+    (events outer.validateSteps).map (fun e => (e.phase, e.tag)) =
+      [(.vbefore, 1), (.validate, 2), (.validate, 1), (.vextra, 2), (.validate, 0), (.vextra, 1)] ∧
+    outer.cache = ⟨some 2, some 3⟩ ∧
+    (events outer.cleanupSteps).map (fun e => (e.phase, e.tag)) =
+      [(.cleanup, 0), (.cleanup, 1), (.cleanup, 2), (.cextra, 2), (.cleanup, 3)] ∧
+    (run ix [⟨.vextra, 2, .star 7 4⟩] [] 4).2 = .err (.custom 458756) ∧
+    ((run ix [⟨.vextra, 2, .star 7 4⟩] [] 4).1.map (fun e => (e.phase, e.tag))).getLast? =
+      some (.vextra, 2) ∧
+    outer.namesOK = true ∧ (expectedDecl ix []).Nodup := by decide
 
 /-! ## Order of field validation -/
 
